@@ -10,7 +10,7 @@ from ..px import OK, PX, RAISE, Outcomes
 from ..pxv import Obj, Sym
 from ..te import ClassRef, FuncRef, Member, TypeRef
 from .util import anchor_attrs
-from .util import const, fut, same_class, self_obj, text, who_may_call
+from .util import acquire_release_use, const, fut, same_class, self_obj, text, who_may_call
 
 PROTO = "bellows.ezsp.protocol"
 from ..su import VERSIONS  # noqa: E402  (shared list, filled from EZSP._BY_VERSION)
@@ -41,6 +41,9 @@ def inline_proto(stop=()):
             return False
         if f.cls is not None and any(n in ("ProtocolHandler",) for n in f.cls.base_names()) and not f.is_async:
             return True
+        if f.cls is not None and any(n in ("ProtocolHandler",) for n in f.cls.base_names() + [f.cls.name]) and f.is_async and awaited \
+                and f.name.startswith("_") and f.cls.name == "ProtocolHandler":
+            return True  # a private coroutine of the base handler that command() was split into (awaited in place: no extra suspension)
         return f.mod == "bellows.types" and f.cls is None
 
     return pol
@@ -246,6 +249,8 @@ def r06_4(ctx):
             if isinstance(q, ast.Attribute) and q.value is nnode and q.attr not in ("acquire", "release", "_waiters", "_value", "__aenter__", "__aexit__") \
                     and isinstance(q.ctx, ast.Load):
                 ok = True  # a read-only query (locked(), value, num_waiting ...): diagnostics, not slot management
+        if not ok and g.cls is not None and "ProtocolHandler" in g.cls.base_names() + [g.cls.name] and acquire_release_use(g.node, nnode):
+            ok = True  # `await sem.acquire(priority)` + try/finally `sem.release()`: the explicit spelling of `async with sem(priority=...)`
         ctx.require(ok, f"semaphore-use:{g.short}", f"send semaphore used in {g.short} line {nnode.lineno} other than `async with` in command()",
                     func=g, node=nnode, props=P)
     from .ash_link import confined_writers
@@ -1029,9 +1034,22 @@ def r08_4(ctx):
     rx_funcs = [g for g in rx_funcs if not (g.cls.name == "EZSP" and g.name not in ("frame_received",))]
     tx_funcs = family(reachable_names(repo, tx_roots))
     read = set()
+    mutators = ("append", "extend", "add", "update", "setdefault", "insert", "appendleft")
     for g in rx_funcs + tx_funcs:
+        parent = {}
+        for n in ast.walk(g.node):
+            for ch in ast.iter_child_nodes(n):
+                parent[ch] = n
         for n in ast.walk(g.node):
             if isinstance(n, ast.Attribute) and isinstance(n.ctx, ast.Load) and text(n.value) == "self":
+                up = parent.get(n)
+                # bookkeeping that is only ever written - `self.x[k] = v`, `self.x[k] += 1`, `self.x.append(v)` as a statement - loads
+                # the container only to store into it: that is not a read of protocol state
+                if isinstance(up, ast.Subscript) and up.value is n and isinstance(up.ctx, (ast.Store, ast.Del)):
+                    continue
+                if isinstance(up, ast.Attribute) and up.value is n and up.attr in mutators and isinstance(parent.get(up), ast.Call) \
+                        and parent[up].func is up and isinstance(parent.get(parent[up]), ast.Expr):
+                    continue
                 read.add(n.attr)
     n_ok = 0
     for f in rx_funcs:
